@@ -9,6 +9,9 @@ package signing
 import (
 	"errors"
 
+	errors2 "github.com/pkg/errors"
+
+	"github.com/bnb-chain/tss-lib/v2/crypto"
 	"github.com/bnb-chain/tss-lib/v2/crypto/commitments"
 	"github.com/bnb-chain/tss-lib/v2/tss"
 )
@@ -37,6 +40,13 @@ func (round *round9) Start() *tss.Error {
 			return round.WrapError(errors.New("de-commitment for bigVj and bigAj failed"), Pj)
 		}
 		UjX, UjY, TjX, TjY := values[0], values[1], values[2], values[3]
+		// U_j and T_j come from the wire: they must be points of the curve before they are added
+		if _, err := crypto.NewECPoint(round.Params().EC(), UjX, UjY); err != nil {
+			return round.WrapError(errors2.Wrapf(err, "NewECPoint(Uj)"), Pj)
+		}
+		if _, err := crypto.NewECPoint(round.Params().EC(), TjX, TjY); err != nil {
+			return round.WrapError(errors2.Wrapf(err, "NewECPoint(Tj)"), Pj)
+		}
 		UX, UY = round.Params().EC().Add(UX, UY, UjX, UjY)
 		TX, TY = round.Params().EC().Add(TX, TY, TjX, TjY)
 	}
